@@ -1613,6 +1613,9 @@ class Interp:
             if isinstance(obj, dict) and idx.k == "name" and all(isinstance(k, SV) and k.t.eq(idx.t) for k in obj):
                 obj[idx] = v
                 return
+            if isinstance(obj, NativeModel) and "__setitem__" in _all_class_attrs(type(obj)):
+                obj[idx] = v          # a contract stub that defines item assignment itself
+                return
             raise Unsupported("store at symbolic index into %s" % type(obj).__name__)
         if is_symbolic(v) and not isinstance(obj, (list, dict)) and not (isinstance(obj, NativeModel) and hasattr(type(obj), "__setitem__")):
             raise Unsupported("store of symbolic value into %s" % type(obj).__name__)
